@@ -215,7 +215,7 @@ fn random_lane(id: &str, tier: Tier, lane: usize, seed: u64, cases: u32, tape_ma
         cases,
         failure_persistence: None,
         rng_seed: RngSeed::Fixed(lane_seed(seed, id, lane, 0)),
-        max_shrink_iters: 3000,
+        max_shrink_iters: 300,
         max_shrink_time: 0,
         max_local_rejects: 65536,
         max_global_rejects: 65536,
@@ -319,56 +319,101 @@ fn account(r: &mut LaneResult, rep: &CaseReport, tape_len: usize) {
     }
 }
 
-/// Delta-debugging pass over the tape after proptest's own shrinking: delete spans, zero bytes.
+/// Delta-debugging pass over the tape after proptest's own shrinking: shortest failing prefix,
+/// span deletion, per-byte bisection towards zero. Bounded by evaluations and wall-clock time
+/// (the bound only limits how small the reproduction gets, never the verdict).
 fn ddmin(w: &mut WorkerHandle, mut tape: Vec<u8>, avoid: bool, budget_ms: u32, evals: &mut u64) -> Vec<u8> {
-    let mut fails = |t: &[u8], w: &mut WorkerHandle| -> bool {
+    let t0 = std::time::Instant::now();
+    let mut budget: i64 = 60_000;
+    let mut fails = |t: &[u8], w: &mut WorkerHandle, budget: &mut i64| -> bool {
         *evals += 1;
+        *budget -= 1;
+        if t0.elapsed().as_secs() > 90 {
+            *budget = 0;
+        }
         matches!(interpret(w.run_tape(t, avoid, false, budget_ms)), Exec::Fail { .. })
     };
-    let mut budget = 1500;
     let mut changed = true;
     while changed && budget > 0 {
         changed = false;
+        // shortest failing prefix (an exhausted tape yields zeros)
+        let (mut lo, mut hi) = (0usize, tape.len());
+        while lo < hi && budget > 0 {
+            let mid = (lo + hi) / 2;
+            if fails(&tape[..mid], w, &mut budget) {
+                hi = mid;
+            } else {
+                lo = mid + 1;
+            }
+        }
+        if hi < tape.len() {
+            tape.truncate(hi);
+            changed = true;
+        }
+        // span deletion
         let mut span = (tape.len() / 2).max(1);
-        while span >= 1 && budget > 0 {
+        loop {
             let mut i = 0;
             while i + span <= tape.len() && budget > 0 {
                 let mut cand = tape.clone();
                 cand.drain(i..i + span);
-                budget -= 1;
-                if fails(&cand, w) {
+                if fails(&cand, w, &mut budget) {
                     tape = cand;
                     changed = true;
                 } else {
                     i += span;
                 }
             }
-            if span == 1 {
+            if span == 1 || budget <= 0 {
                 break;
             }
             span /= 2;
         }
-        for i in 0..tape.len() {
-            if budget == 0 {
-                break;
-            }
-            if tape[i] != 0 {
-                for nv in [0u8, tape[i] / 2, tape[i] - 1] {
-                    if nv >= tape[i] {
-                        continue;
-                    }
-                    let mut cand = tape.clone();
-                    cand[i] = nv;
-                    budget -= 1;
-                    if fails(&cand, w) {
-                        tape = cand;
-                        changed = true;
-                        break;
-                    }
+        // every (offset, size) with size <= 24: removes one generated item (its "more" flag and its bytes)
+        for span in (1..=24usize).rev() {
+            let mut i = 0;
+            while i + span <= tape.len() && budget > 0 {
+                let mut cand = tape.clone();
+                cand.drain(i..i + span);
+                if fails(&cand, w, &mut budget) {
+                    tape = cand;
+                    changed = true;
+                } else {
+                    i += 1;
                 }
             }
         }
-        // drop trailing zeros (an exhausted tape yields zeros anyway)
+        // per-byte bisection towards zero
+        for i in 0..tape.len() {
+            if budget <= 0 {
+                break;
+            }
+            let v = tape[i];
+            if v == 0 {
+                continue;
+            }
+            let mut cand = tape.clone();
+            cand[i] = 0;
+            if fails(&cand, w, &mut budget) {
+                tape = cand;
+                changed = true;
+                continue;
+            }
+            let (mut lo, mut hi) = (0u8, v); // lo passes, hi fails
+            while hi - lo > 1 && budget > 0 {
+                let mid = lo + (hi - lo) / 2;
+                cand[i] = mid;
+                if fails(&cand, w, &mut budget) {
+                    hi = mid;
+                } else {
+                    lo = mid;
+                }
+            }
+            if hi < v {
+                tape[i] = hi;
+                changed = true;
+            }
+        }
         while tape.last() == Some(&0) {
             tape.pop();
         }
